@@ -329,6 +329,12 @@ class H2Protocol:
                 else:
                     await self._create_stream(event)
                     await self.send(Updated(idle=False))
+                    stream = self.streams.get(event.stream_id)
+                    if getattr(stream, "closed", False) is True:
+                        # The stream answered by itself (e.g. a 404
+                        # for an unknown server name), nothing else
+                        # is going to close it.
+                        await self.stream_send(StreamClosed(stream_id=event.stream_id))
 
                 if self.keep_alive_requests > self.config.keep_alive_max_requests:
                     self.connection.close_connection()
